@@ -197,7 +197,7 @@ def main():
     if not os.environ.get("VERIF_C14_NOPROOFS") and not c.proofs():  # the knob is a development aid only
         c.finish()
     quick = c.tier == "quick"
-    nprog = int(os.environ.get("VERIF_C14_N", 96 if quick else 1500))
+    nprog = int(os.environ.get("VERIF_C14_N", 96 if quick else 700))
     rng = c.rng
     progs = []
     cdir = os.path.join(common.VERIF, "corpus", PID)
